@@ -61,14 +61,15 @@ theorem exec_kept (run : ProbeRunner) {s : St} {fl : List Nat} (H : HInv s fl)
       subst hw
       obtain ⟨qk, hlk⟩ := opNewEntity_qkeep run p H.tinv H.unlocked H.noObs hreg' hrnd hin hfew'
         hent' hop
-      have post := opNewEntity_rel_spec run p H.tinv H.unlocked H.noObs hreg' hrnd hin hrc hfew'
-        hent' hop
+      have post := opNewEntity_rel_spec run p H.tinv H.unlocked H.noObs hreg' hrnd hin hrc
+        (H.targets_in hv) hfew' hent' hop
       exact ⟨qk, opNewEntity_ckeep run p H.tinv H.unlocked H.noObs hreg' hop, hlk,
         isRelComp_of_kinds post.kinds⟩
   | add p e ids vals rels =>
     obtain ⟨en, hf, ⟨hne, hnd, hall⟩, ⟨hrnd, hrin, hrall⟩, hv⟩ := hp
     have hm := find_some_mem hf
-    obtain ⟨_, ha, h2, hnf, _, _⟩ := H.live_facts hm
+    obtain ⟨_, ha, h2, hnf, _, hsl0⟩ := H.live_facts hm
+    have hsl := Pool.lt_of_slot hsl0
     have hg' : ((e ∈ s.issued ∧ ∀ c ∈ ids, c < s.ss.zst.length) ∧ RelsWF s.ss.isRel ids rels) ∧
         relsExpr s p rels = true := by
       simpa only [RelRefine.guard, Bool.and_eq_true, List.all_eq_true, decide_eq_true_eq] using hg
@@ -83,31 +84,33 @@ theorem exec_kept (run : ProbeRunner) {s : St} {fl : List Nat} (H : HInv s fl)
       simp only [exec, hop] at hex
       injection hex with _ hw
       subst hw
-      have post := opAdd_rel_spec run p H.tinv H.unlocked H.noObs h2 hnf ha hreg' hrnd hin hrc hfew'
-        hent' hop
-      exact ⟨opAdd_qkeep run p H.tinv H.unlocked H.noObs h2 hnf ha hreg' hrnd hin hent' hop,
-        opAdd_ckeep run p H.tinv H.unlocked H.noObs h2 hnf ha hreg' hop, post.locks,
+      have post := opAdd_rel_spec run p H.tinv H.unlocked H.noObs h2 hnf ha hsl hreg' hrnd hin hrc
+        (H.targets_in hv) hfew' hent' hop
+      exact ⟨opAdd_qkeep run p H.tinv H.unlocked H.noObs h2 hnf ha hsl hreg' hrnd hin hent' hop,
+        opAdd_ckeep run p H.tinv H.unlocked H.noObs h2 hnf ha hsl hreg' hop, post.locks,
         isRelComp_of_kinds post.kinds⟩
   | rem p e ids =>
     obtain ⟨en, hf, hne, hnd, hall⟩ := hp
     have hm := find_some_mem hf
-    obtain ⟨_, ha, h2, hnf, _, _⟩ := H.live_facts hm
+    obtain ⟨_, ha, h2, hnf, _, hsl0⟩ := H.live_facts hm
+    have hsl := Pool.lt_of_slot hsl0
     have ok := H.ok e en hm
     have hmask : ∀ (c : Comp), (s.w.maskOf e).get c = true ↔ c ∈ Refine.keys en.comps := fun c => by
-      rw [H.tinv.mask_iff_comps h2 hnf ha ok.comps c, H.comps_iff hm c]
+      rw [H.tinv.mask_iff_comps h2 hnf ha hsl ok.comps c, H.comps_iff hm c]
     cases hop : opRemove run p e ids s.w with
     | panic k w1 => simp only [exec, hop] at hex; cases hex
     | ok u w1 =>
       simp only [exec, hop] at hex
       injection hex with _ hw
       subst hw
-      obtain ⟨qk, ck, hlk, hk⟩ := opRemove_keep run p H.tinv H.unlocked H.noObs h2 hnf ha hne hnd
+      obtain ⟨qk, ck, hlk, hk⟩ := opRemove_keep run p H.tinv H.unlocked H.noObs h2 hnf ha hsl hne hnd
         (fun c hc => (hmask c).mpr (hall c hc)) hent' hop
       exact ⟨qk, ck, hlk, isRelComp_of_kinds hk⟩
   | setrel p e rels =>
     obtain ⟨en, hf, hne, hrnd, hhas, hv⟩ := hp
     have hm := find_some_mem hf
-    obtain ⟨_, ha, h2, hnf, _, _⟩ := H.live_facts hm
+    obtain ⟨_, ha, h2, hnf, _, hsl0⟩ := H.live_facts hm
+    have hsl := Pool.lt_of_slot hsl0
     have hemp : rels.isEmpty = false := by
       cases rels with
       | nil => exact absurd rfl hne
@@ -120,11 +123,11 @@ theorem exec_kept (run : ProbeRunner) {s : St} {fl : List Nat} (H : HInv s fl)
       simp only [exec, hop] at hex
       injection hex with _ hw
       subst hw
-      have post := opSetRelations_spec run p H.tinv H.unlocked H.noObs h2 hnf ha hemp hrnd hhas'
-        hfew' hent' hop
-      exact ⟨opSetRelations_qkeep run p H.tinv H.unlocked H.noObs h2 hnf ha hemp hrnd hhas' hent'
+      have post := opSetRelations_spec run p H.tinv H.unlocked H.noObs h2 hnf ha hsl hemp hrnd hhas'
+        (H.targets_in hv) hfew' hent' hop
+      exact ⟨opSetRelations_qkeep run p H.tinv H.unlocked H.noObs h2 hnf ha hsl hemp hrnd hhas' hent'
           hop,
-        opSetRelations_ckeep run p H.tinv H.unlocked H.noObs h2 hnf ha hemp hrnd hhas' hop,
+        opSetRelations_ckeep run p H.tinv H.unlocked H.noObs h2 hnf ha hsl hemp hrnd hhas' hop,
         post.locks, isRelComp_of_kinds post.kinds⟩
   | set e vals =>
     cases hop : opSet run e (Refine.keys vals) vals s.w with
@@ -138,11 +141,12 @@ theorem exec_kept (run : ProbeRunner) {s : St} {fl : List Nat} (H : HInv s fl)
   | del e =>
     obtain ⟨en, hf⟩ := hp
     have hm := find_some_mem hf
-    obtain ⟨_, ha, h2, hnf, _, _⟩ := H.live_facts hm
-    obtain ⟨w3, hst, q3, hlk⟩ := opRemoveEntity_qkeep run H.tinv H.unlocked H.noObs h2 hnf ha hfew
+    obtain ⟨_, ha, h2, hnf, _, hsl0⟩ := H.live_facts hm
+    have hsl := Pool.lt_of_slot hsl0
+    obtain ⟨w3, hst, q3, hlk⟩ := opRemoveEntity_qkeep run H.tinv H.unlocked H.noObs h2 hnf ha hsl hfew
       hent
-    obtain ⟨w4, hst4, c4⟩ := opRemoveEntity_ckeep run H.tinv H.unlocked H.noObs h2 hnf ha hfew hent
-    obtain ⟨w5, hst5, post⟩ := opRemoveEntity_rel_spec run H.tinv H.unlocked H.noObs h2 hnf ha hfew
+    obtain ⟨w4, hst4, c4⟩ := opRemoveEntity_ckeep run H.tinv H.unlocked H.noObs h2 hnf ha hsl hfew hent
+    obtain ⟨w5, hst5, post⟩ := opRemoveEntity_rel_spec run H.tinv H.unlocked H.noObs h2 hnf ha hsl hfew
       hent
     simp only [exec, hst] at hex
     injection hex with _ hw
